@@ -179,7 +179,7 @@ package shaping
 //@   modifies unspecified
 //
 //@ spec visuallyLast(dir di.Direction, n int) int = ite(bool(dir.Progression()), 0, n-1)
-//@ func LineWrapper.postProcessLine C08 C02
+//@ func LineWrapper.postProcessLine C08 C02 C04
 //@   mode int
 //@   requires len(finalLine) < 2147483647 && l.breaker != nil
 //@   ensures [range] forall(k, 0, len(result0.Line), 0 <= int(result0.Line[k].VisualIndex) && int(result0.Line[k].VisualIndex) < len(result0.Line))
@@ -193,6 +193,11 @@ package shaping
 //@   ensures [truncated-count] result0.Truncated == ite(old(l.truncating) && old(l.config.TruncateAfterLines) == 1, old(l.breaker.totalRunes) - l.lineStartRune, 0)
 //@   ensures [done] result1 == (done0 || l.lineStartRune >= old(l.breaker.totalRunes) || (old(l.truncating) && old(l.config.TruncateAfterLines) == 1))
 //@   ensures [more] implies(result1, !l.more)
+//   C04 ("truncation is honoured"): on the last permitted line the truncator run is appended whenever runes are
+//   left out or the text continues - also when the line itself is empty - and it accounts for exactly those runes
+//@   ensures [truncator-inserted] implies(old(l.truncating) && old(l.config.TruncateAfterLines) == 1 && (result0.Truncated > 0 || old(l.config.TextContinues)),
+//@     | len(result0.Line) == len(finalLine0)+1 && result0.Line[len(finalLine0)].Runes.Count == result0.Truncated && result0.Line[len(finalLine0)].Runes.Offset == result0.NextLine)
+//@   ensures [no-truncator-otherwise] implies(!(old(l.truncating) && old(l.config.TruncateAfterLines) == 1 && (result0.Truncated > 0 || old(l.config.TextContinues))), len(result0.Line) == len(finalLine0))
 //@   modifies unspecified
 //@   loop 1 invariant [goal] 0 <= goalIdx && goalIdx < len(finalLine) && goalIdx == visuallyLast(l.config.Direction, len(finalLine))
 //@   loop 1 invariant [not-yet] forall(k, 0, rangeindex+1, int(finalLine[k].VisualIndex) != visuallyLast(l.config.Direction, len(finalLine)))
@@ -207,7 +212,7 @@ package shaping
 //@ spec cutLo(run Output, startRune int) int = max(startRune-run.Runes.Offset, 0)
 //@ spec cutHi(run Output, mapping []int, endRune int) int = min(endRune-run.Runes.Offset, len(mapping)-1)
 //
-//@ func cutRun C02
+//@ func cutRun C02 C04
 //@   mode bv
 //@   requires mapOK(run, mapping)
 //@   requires 0 <= run.Runes.Offset && run.Runes.Offset <= 1<<40 && 0 <= startRune && startRune <= endRune && endRune <= 1<<40
